@@ -46,3 +46,21 @@ package cgroup
 //@   requires c != nil
 //@   assigns nothing
 //@   ensures result == c.existing
+
+//@ func pkg/cgroup.(*V1).Destroy props C20
+//@   arith int
+//@   requires c != nil && forall k int :: 0 <= k && k < len(c.all) ==> c.all[k] != nil
+//@   assigns G.rmdir
+//@   ensures c.existing ==> G.rmdir == old(G.rmdir)
+//@   ensures !c.existing ==> forall k int :: 0 <= k && k < len(c.all) && len(c.all[k].path) != 0 ==> G.rmdir[c.all[k].path]
+//@   loop 0: invariant -1 <= rangeindex && rangeindex < len(c.all)
+//@   loop 0: invariant c.existing ==> G.rmdir == old(G.rmdir)
+//@   loop 0: invariant !c.existing ==> forall k int :: 0 <= k && k <= rangeindex && len(c.all[k].path) != 0 ==> G.rmdir[c.all[k].path]
+//@   loop 0: invariant forall p string :: old(G.rmdir[p]) ==> G.rmdir[p]
+
+// adding a pid writes exactly that pid's decimal text, one write per pid, to the group's cgroup.procs
+//@ func pkg/cgroup.AddProcesses props C20
+//@   arith int
+//@   assigns nothing
+//@   loop 0: invariant -1 <= rangeindex && rangeindex < len(procs) && f != nil
+//@   callsite WriteString: assert @C20 s == itoa(procs[rangeindex + 1])
